@@ -9,7 +9,7 @@ instruction interpreter, AtomicSem.tla the Level A semantics).  TLC explores
 every interleaving; the verdict of every quiescent state is judged against the
 set of linearizations.  Supplement: pthread stress runs (final value only).
 """
-import itertools, json, os, re, subprocess
+import itertools, json, os, re, struct, subprocess
 import vt, asmparse
 from vt import Infra
 
@@ -22,7 +22,40 @@ MIX = {"sub": (-8, 3, (72, -70)), "mul": (-8, 2, (72, -70)), "div": (-8, 2, (72,
 MIX_SHAPES = [(2, 1), (3, 1)]
 OPS_INCDEC = {"preinc": "++%s", "predec": "--%s", "postinc": "%s++", "postdec": "%s--"}
 OPS_FETCH = {"fadd": "atomic_fetch_add", "fsub": "atomic_fetch_sub", "for": "atomic_fetch_or", "fxor": "atomic_fetch_xor", "fand": "atomic_fetch_and"}
-OPS_OTHER = ["xchg", "cas", "casw", "casinc", "lock", "casx", "casro"]
+OPS_OTHER = ["xchg", "cas", "casw", "casinc", "lock", "casx", "casro", "xchgw"]
+# xchgw: exchange whose old value has the object's top bit set and whose new-value operand (a long) is outside the
+#        object's range (1-/2-byte objects) or negative: the result is the old value converted to the object's type,
+#        whatever the operand was (C11 7.17.7.3).
+# type classes: (w, sg) with sg = True / False (signed / unsigned integer type), BOOL (= 2: _Bool, w = 1) or
+# FLT (= 3: w = 4 float, w = 8 double; the operands of the signed integer types, all results integers < 2^20)
+BOOL = 2
+FLT = 3
+FLOAT_OPS = ["add", "sub", "mul", "div", "preinc", "predec", "postinc", "postdec", "xchg", "cas", "casw", "casinc", "casro"]
+BOOL_INIT = dict(add=0, sub=0, mul=1, div=1, mod=1, shl=1, shr=1, preinc=0, postinc=0, predec=0, postdec=0, xchg=0, xchgw=1,
+                 cas=1, casw=1, casinc=0, lock=0, casx=0, casro=1, **{"and": 1, "or": 0, "xor": 1})
+
+
+def ctype(w, sg):
+    return "_Bool" if sg == BOOL else ("float" if w == 4 else "double") if sg == FLT else WIDTHS[w][0 if sg else 1]
+
+
+def sgcode(sg):
+    return 2 if sg == BOOL else 3 if sg == FLT else 1 if sg else 0
+
+
+def tname(w, sg):
+    return "w%d%s" % (w, "b" if sg == BOOL else "f" if sg == FLT else "s" if sg else "u")
+
+
+def ops_of(sg):
+    return FLOAT_OPS if sg == FLT else ALL_OPS
+
+
+def obj_bytes(x, w, sg):
+    """object representation of the value x of the type class (w, sg)"""
+    if sg == FLT:
+        return list(struct.pack("<f" if w == 4 else "<d", x))
+    return le_bytes(x, w)
 # casx : compare-exchange whose `expected` is a SHARED object (xe): thread 0 hands the object over with
 #        CAS(&x, &xe, v); thread 1, once it sees the new value, takes xe over and stores into it.  2 x 1 only.
 # casro: compare-exchange that can only succeed (object = expected = new value) with `expected` (roe) in
@@ -40,7 +73,7 @@ def lvalue(kind):
 
 def c_unit(w, sg, kind):
     """One translation unit: every operation on one (width, signedness, object kind)."""
-    T = WIDTHS[w][0 if sg else 1]
+    T = ctype(w, sg)
     lv = lvalue(kind)
     ptype = "struct S *" if kind == "pmember" else "_Atomic T *"
     src = ["#include <stdatomic.h>", "typedef %s T;" % T,
@@ -48,7 +81,7 @@ def c_unit(w, sg, kind):
            "_Atomic T g; struct S s; _Atomic T arr[4]; T cnt; T xe; T roe;"]
     # sensitivity control: the same update through a non-atomic lvalue (must lose updates)
     src.append("long f_ctl(%sp, long v, long e) { T *q; q = (T *)&g; *q += v; return 0; }" % ptype)
-    for op in ALL_OPS:
+    for op in ops_of(sg):
         head = "long f_%s(%sp, long v, long e) {" % (op, ptype)
         if op in OPS_ASSIGN:
             body = "return %s %s v;" % (lv, OPS_ASSIGN[op])
@@ -56,7 +89,7 @@ def c_unit(w, sg, kind):
             body = "return %s;" % (OPS_INCDEC[op] % lv)
         elif op in OPS_FETCH:
             body = "return %s(&%s, v);" % (OPS_FETCH[op], lv)
-        elif op == "xchg":
+        elif op in ("xchg", "xchgw"):
             body = "return atomic_exchange(&%s, v);" % lv
         elif op in ("cas", "casw"):
             body = "T ee; int r; ee = e; r = atomic_compare_exchange_%s(&%s, &ee, v); return (long)ee * 2 + r;" % (
@@ -70,7 +103,7 @@ def c_unit(w, sg, kind):
         elif op == "lock":
             body = "while (atomic_exchange(&%s, 1)) ; cnt = cnt + v; %s = 0; return 0;" % (lv, lv)
         src.append(head + " " + body + " }")
-    for op in MIX:
+    for op in (MIX if sg != FLT else ()):
         src.append("long f_mix_%s(%sp, long v, long e) { if (e) return %s += v; return %s %s v; }" % (op, ptype, lv, lv, OPS_ASSIGN[op]))
     return "\n".join(src) + "\n"
 
@@ -92,36 +125,42 @@ def op_values(op, w, sg, nt, reps):
             # `+=` gets operands of both signs so that the object can return to an earlier value (ABA)
             V[t, k] = dict(add=(i // 2 + 1) * (1 if i % 2 == 0 else -1) if base == op else i + 1, sub=i + 1, mul=i + 2, div=i + 2, mod=i + 7, **{"and": 127 - (1 << i), "or": 1 << i, "xor": 1 << i},
                            shl=1, shr=1, preinc=1, predec=1, postinc=1, postdec=1, xchg=10 + i, cas=10 + i, casw=10 + i,
-                           casinc=i + 1, lock=i + 1, casx=0, casro=7)[base]
+                           casinc=i + 1, lock=i + 1, casx=0, casro=7,
+                           xchgw=(0x1230 + i if w == 1 else 0x12340010 + i if w == 2 or not sg or sg == BOOL else -(10 + i)))[base]
     unsigned_small = (not sg) and w <= 2
     top = 250 if w == 1 else 65530
     init = dict(add=top if unsigned_small else 5, sub=3 if unsigned_small else (2 if sg else 100), mul=3, div=120, mod=100,
                 **{"and": 127, "or": 0, "xor": 85}, shl=1, shr=64,
                 preinc=(top + 4 if w == 1 else 65534) if unsigned_small else 5, postinc=5,
                 predec=1 if unsigned_small else (1 if sg else 100), postdec=50,
-                xchg=7, cas=7, casw=7, casinc=5, lock=0, casx=7, casro=7)[base]
+                xchg=7, cas=7, casw=7, casinc=5, lock=0, casx=7, casro=7,
+                xchgw=-3 if sg else 253 if w == 1 else 65533 if w == 2 else 1000000)[base]
     E = {}
     for t in range(nt):
         for k in range(reps):
             E[t, k] = 7 if k == 0 else V[t, 0]
     if op == "lock":
         init = 0
+    if sg == BOOL:               # a _Bool object holds 0 or 1; the operands keep their values (they are converted)
+        init = BOOL_INIT[base]
     if op == "casx":             # thread 0: producer (e = 0) publishes 10; thread 1: consumer waits for 10, stores 99 into xe
         V = {(t, k): (10 if t == 0 else 99) for t in range(nt) for k in range(reps)}
         E = {(t, k): (0 if t == 0 else 10) for t in range(nt) for k in range(reps)}
-        init = 7
+        init = 0 if sg == BOOL else 7
     if op == "casro":            # object = expected = new value = 7: every compare-exchange succeeds
         V = {(t, k): 7 for t in range(nt) for k in range(reps)}
         E = {(t, k): 7 for t in range(nt) for k in range(reps)}
-        init = 7
+        init = 1 if sg == BOOL else 7
     return init, V, E
 
 
 def opk_of(op):
-    return {"casw": "cas", "casro": "cas"}.get(op, op[4:] if op.startswith("mix_") else op)
+    return {"casw": "cas", "casro": "cas", "xchgw": "xchg"}.get(op, op[4:] if op.startswith("mix_") else op)
 
 
-def canon(w, x):
+def canon(w, x, sg=None):
+    if sg == BOOL:
+        return 1 if x else 0
     return x % 256 if w == 1 else x % 65536 if w == 2 else x
 
 
@@ -157,30 +196,31 @@ def build_case(unit, fname, w, sg, kind, op, nt, reps):
     rdi = dict(ptr=HEAP + 8, pmember=symaddr["s"]).get(kind, 0)
     init, V, E = op_values(op, w, sg, nt, reps)
     obj, keep = objaddr, []
-    for i, b in enumerate(le_bytes(init, w)):
+    init = canon(w, init, sg) if sg == BOOL else init
+    for i, b in enumerate(obj_bytes(init, w, sg)):
         shared[objaddr + i] = b
     if op == "lock":                            # the judged object is the plain counter; the lock word must end up 0
         obj = symaddr["cnt"]
         for i in range(w):
             shared[obj + i] = 0
         keep += [[objaddr + i, 0] for i in range(w)]
-    aux, ro, tinit = 0, [], canon(w, init)
+    aux, ro, tinit = 0, [], canon(w, init, sg)
     if op == "casx":                            # the shared expected object starts equal to the atomic object
         aux = symaddr["xe"]
         for i, b in enumerate(le_bytes(init, w)):
             shared[aux + i] = b
-        tinit = dict(m=canon(w, init), x=canon(w, init))
+        tinit = dict(m=canon(w, init, sg), x=canon(w, init, sg))
     if op == "casro":
         aux = symaddr["roe"]
-        for i, b in enumerate(le_bytes(init, w)):
+        for i, b in enumerate(obj_bytes(init, w, sg)):
             shared[aux + i] = b
         ro = list(range(aux, aux + w))
     touched = set(range(objaddr, objaddr + w)) | set(range(obj, obj + w)) | (set(range(aux, aux + w)) if op == "casx" else set())
     keep += [[x, v] for x, v in sorted(shared.items()) if x not in touched]      # every other byte keeps its value
-    name = "w%d%s-%s-%s-%dx%d" % (w, "s" if sg else "u", kind, op, nt, reps)
+    name = "%s-%s-%s-%dx%d" % (tname(w, sg), kind, op, nt, reps)
     return dict(name=name, code=code, nt=nt, reps=reps, ss=frame + 96,
                 args=[[[rdi, V[t, k], E[t, k]] for k in range(reps)] for t in range(nt)],
-                shared=[[x, v] for x, v in sorted(shared.items())], obj=obj, w=w, sg=1 if sg else 0,
+                shared=[[x, v] for x, v in sorted(shared.items())], obj=obj, w=w, sg=sgcode(sg),
                 opk=opk_of(op), mix=1 if op.startswith("mix_") else 0, init=tinit, keep=keep, aux=aux, ro=ro)
 
 
@@ -191,7 +231,7 @@ def compile_units(ctx, tree, keys):
     def one(key):
         w, sg, kind = key
         src = c_unit(w, sg, kind)
-        f = "%s/u_%d%s_%s.c" % (d, w, "s" if sg else "u", kind)
+        f = "%s/u_%s_%s.c" % (d, tname(w, sg), kind)
         open(f, "w").write(src)
         r = vt.sh([tree + "/chibicc", "-I" + tree + "/include", "-S", "-o", f[:-2] + ".s", f], timeout=60)
         if r.returncode != 0:
@@ -203,15 +243,15 @@ def compile_units(ctx, tree, keys):
 
 def domain(tier):
     out = []
-    for w in (1, 2, 4, 8):
-        for sg in (True, False):
+    for w, sg in [(w, sg) for w in (1, 2, 4, 8) for sg in (True, False)] + [(1, BOOL), (4, FLT), (8, FLT)]:
+        if True:
             for kind in KINDS:
-                for op in ALL_OPS:
+                for op in ops_of(sg):
                     for nt, reps in SHAPES:
                         if op == "casx" and (nt, reps) != (2, 1):
                             continue
                         out.append((w, sg, kind, op, nt, reps))
-                if sg:
+                if sg is True:
                     for op in MIX:
                         for nt, reps in MIX_SHAPES:
                             out.append((w, sg, kind, "mix_" + op, nt, reps))
@@ -221,7 +261,10 @@ def domain(tier):
 def always(dom):
     """small family every quick run includes completely: signed 1/2-byte objects, every op= against a sign-flipping +="""
     return [c for c in dom if (c[0] <= 2 and c[2] == "global" and c[3].startswith("mix_"))
-            or (c[3] in ("casx", "casro") and c[1] and c[2] in ("global", "ptr") and c[5] == 1 and c[4] == 2)]
+            or (c[3] in ("casx", "casro") and c[1] is True and c[2] in ("global", "ptr") and c[5] == 1 and c[4] == 2)
+            or (c[3] == "xchgw" and c[0] <= 2 and c[1] is True and c[2] == "global" and (c[4], c[5]) == (2, 1))
+            or (c[1] == BOOL and c[3] in ("postinc", "postdec", "xchg") and c[2] == "global" and (c[4], c[5]) == (2, 1))
+            or (c[1] == FLT and c[3] in ("postinc", "add") and c[2] == "global" and (c[4], c[5]) == (2, 1))]
 
 
 # ------------------------------------------------------------------ TLC
@@ -275,13 +318,19 @@ def judge(ctx, cases, meta, by, tso, label):
             bad.append((case, meta[ci - 1], worst, [v for v in vs if v["verdict"] not in ("ok", "returns-new-value")][:3]))
     ctx.cov["traces_validated_against_impl"] += len(cases)
 
-    def report(t):
+    def sig_of(m, verdict):
+        w, sg, kind, op, nt, reps = m["coord"]
+        opc = ("cas" if op in ("casx", "casro") and verdict == "expected-written-on-success" else "fetch" if op in OPS_FETCH
+               else "incdec" if sg in (BOOL, FLT) and op in OPS_INCDEC else "op=" if (op in OPS_ASSIGN or op in OPS_INCDEC or op.startswith("mix_")) else op)
+        return "atomic:%s:%s%s:%s" % (kind, "bool-" if sg == BOOL else "float-" if sg == FLT else "", opc, verdict)
+
+    def report(t):                  # the schedule (a separate TLC run) only for what is not a known finding
         case, m, verdict, examples = t
-        res = counterexample(ctx, case, tso)
+        res = None if vt.match_finding(ctx.findings, sig_of(m, verdict)) else counterexample(ctx, case, tso)
         return t, res
     for (case, m, verdict, examples), res in vt.pmap(report, bad, workers=4):
         w, sg, kind, op, nt, reps = m["coord"]
-        sig = "atomic:%s:%s:%s" % (kind, "cas" if op in ("casx", "casro") and verdict == "expected-written-on-success" else "fetch" if op in OPS_FETCH else "op=" if (op in OPS_ASSIGN or op in OPS_INCDEC or op.startswith("mix_")) else op, verdict)
+        sig = sig_of(m, verdict)
         f = vt.match_finding(ctx.findings, sig)
         p = None
         if not f:
@@ -399,12 +448,14 @@ GV = 85
 def casops_source(w, sg, cases):
     T = WIDTHS[w][0 if sg else 1]
     des = dict(plain="21", call5="call5(1, 2, 3, 4, 21)", ext5="ext5(1, 2, 3, 4, 21)", nfetch="atomic_fetch_add(&h, 1) + 16",
-               ncas="(atomic_compare_exchange_strong(&h, &he, 6), 21)", scopy="(s2 = s1, 21)", bitf="(bf.f = 3) + 18")
+               ncas="(atomic_compare_exchange_strong(&h, &he, 6), 21)", scopy="(s2 = s1, 21)", bitf="(bf.f = 3) + 18",
+               isub="i1 - i2", scneg="sc", iwide="0x1234" if w == 1 else "0x12345678")
     exp = dict(plain="&E.e", call5="(T *)call5(1, 2, 3, 4, (long)&E.e)")
     obj = dict(plain="&O.x", call5="(_Atomic T *)call5(1, 2, 3, 4, (long)&O.x)")
     src = ["#include <stdatomic.h>", "int printf(const char *, ...); int fflush(void *); int atoi(const char *);", "typedef %s T;" % T,
            "struct OB { T g1; _Atomic T x; T g2; }; struct EB { T g1; T e; T g2; }; struct S2 { long a; long b; }; struct BF { int f : 4; int g : 4; };",
            "static struct OB O; static struct EB E; static _Atomic long h; static long he; static struct S2 s1, s2; static struct BF bf;",
+           "static int i1 = 2; static int i2 = 3; static signed char sc = -1;",
            "static long call5(long a, long b, long c, long d, long v) { return v; }", "long ext5(long a, long b, long c, long d, long v);",
            "static void reset(long e0) { O.g1 = %d; O.x = 7; O.g2 = %d; E.g1 = %d; E.e = e0; E.g2 = %d; h = 5; he = 5; s1.a = 33; s1.b = 44; s2.a = 0; s2.b = 0; bf.f = 0; bf.g = 5; }" % (GV, GV, GV, GV),
            "static void show(int idx, int r) { int ok = O.g1 == %d && O.g2 == %d && E.g1 == %d && E.g2 == %d && bf.g == 5 && s1.a == 33 && s1.b == 44;"
@@ -495,6 +546,182 @@ def casops(ctx, tree, q):
     ctx.sample(dict(kind="compare-exchange with operand expressions", case=cases[len(cases) // 2]))
 
 
+# ------------------------------------------------------------------------------------------------
+# XchgOperands.tla: one atomic_exchange over object type class x operand type/range x old value class
+XOPS = dict(same="nv", ineg="-1", iwide="%(wide)s", lvar="lv", scneg="sc", isub="i1 - i2", uc200="uc", i256="256", izero="0",
+            call5="call5(1, 2, 3, 4, 10)", pvar="pv", nullc="(long *)0", zero="0", addr="&pool[3]",
+            pcall="(long *)call5(1, 2, 3, 4, (long)&pool[1])")
+
+
+def xchgops_source(w, sg, tc, cases):
+    T = "long *" if tc == "ptr" else "_Bool" if tc == "bool" else ("float" if w == 4 else "double") if tc == "flt" else WIDTHS[w][0 if sg else 1]
+    wide = "0x1234" if w == 1 or tc == "flt" else "0x12345678"
+    gv = "(T)%d" % GV
+    src = ["#include <stdatomic.h>", "int printf(const char *, ...); int fflush(void *); int atoi(const char *); void *malloc(unsigned long);",
+           "typedef %s T;" % T, "struct OB { T g1; _Atomic T x; T g2; };", "static struct OB O; static long spool[4]; static long *hpool;",
+           "static long call5(long a, long b, long c, long d, long v) { return v; }",
+           "static long pidx(long *pool, long *p) { if (!p) return 0; if (p >= pool && p < pool + 4) return p - pool; return -1; }",
+           'static void show(int idx, long r, long x, int ok) { printf("%d %ld %ld %d\\n", idx, r, x, ok); fflush(0); }']
+    for cs in cases:
+        o = "(&O)" if cs["obj"] != "auto" else "(&A)"
+        objx = "&%s->x" % o if cs["obj"] != "call5" else "(_Atomic T *)call5(1, 2, 3, 4, (long)&%s->x)" % o
+        val = XOPS[cs["opn"]] % dict(wide=wide)
+        b = ["static void t_%d(void) { struct OB A; long apool[4]; long *pool = %s; long r; long x;" % (cs["idx"], dict(static="spool", auto="apool", heap="hpool")[cs["pool"]])]
+        if tc == "ptr":
+            b.append("T pv = &pool[1]; %s->g1 = %s; %s->x = %s; %s->g2 = %s;" % (o, gv, o, "&pool[%d]" % cs["old"] if cs["old"] else "0", o, gv))
+            b.append("r = pidx(pool, atomic_exchange(%s, %s)); x = pidx(pool, %s->x);" % (objx, val, o))
+        else:
+            b.append("T nv = %d; long lv = %s; signed char sc = -1; unsigned char uc = 200; int i1 = 2; int i2 = 3;" % (1 if tc == "bool" else 10, wide))
+            b.append("%s->g1 = %s; %s->x = %d; %s->g2 = %s;" % (o, gv, o, cs["old"], o, gv))
+            b.append("r = atomic_exchange(%s, %s);" % (objx, val))
+            b.append("x = *(unsigned char *)&%s->x;" % o if tc == "bool" else "x = %s->x;" % o)     # _Bool: the byte stored, not what a load makes of it
+        b.append("show(%d, r, x, %s->g1 == %s && %s->g2 == %s); }" % (cs["idx"], o, gv, o, gv))
+        src.append(" ".join(b))
+    src.append("static void (*tab[])(void) = {%s};" % ", ".join("t_%d" % cs["idx"] for cs in cases))
+    src.append("int main(int argc, char **argv) { hpool = malloc(1 << 20); for (int i = argc > 1 ? atoi(argv[1]) : 0; i < %d; i++) tab[i](); return 0; }" % len(cases))
+    return "\n".join(src) + "\n"
+
+
+def xchgops(ctx, tree, q):
+    out = os.path.join(ctx.scratch, "xchgops.ndjson")
+    stride = 3 if q else 1
+    cfg = ctx.cfg("atomic", "XchgOperands.cfg", Seed=ctx.seed % stride, Stride=stride)
+    res = ctx.tlc("atomic", "XchgOperands", cfg, env=dict(OUT=out), workers=2, timeout=300)
+    if not res.ok and res.violated:
+        ctx.report("xchgops:level-a:%s" % res.violated, "the reference semantics of atomic_exchange violates its own invariant %s" % res.violated)
+    cases = sorted(vt.read_ndjson(out), key=lambda c: c["idx"])
+    if not cases:
+        raise Infra("XchgOperands.tla generated nothing: " + res.trace_text()[:300])
+    d = ctx.tmp("c16-xchgops")
+    groups = {}
+    for cs in cases:
+        groups.setdefault((cs["w"], cs["sg"], cs["tc"]), []).append(cs)
+
+    def run_exe(exe, cl):
+        got, start = {}, 0
+        while start < len(cl):
+            p = vt.run_limited([exe, str(start)], timeout=120, capture_output=True, text=True)
+            lines = [l.split() for l in p.stdout.splitlines() if len(l.split()) == 4]
+            for f in lines:
+                got[int(f[0])] = tuple(int(x) for x in f[1:])
+            nxt = start + len(lines)
+            if nxt < len(cl):
+                got[cl[nxt]["idx"]] = ("died", p.returncode)
+                nxt += 1
+            start = nxt
+        return got
+
+    def one(item):
+        (w, sg, tc), cl = item
+        f = "%s/xchgops_%d_%d_%s.c" % (d, w, sg, tc)
+        src = xchgops_source(w, sg, tc, cl)
+        open(f, "w").write(src)
+        r = vt.run_limited([tree + "/chibicc", "-I" + tree + "/include", "-c", "-o", f[:-2] + ".o", f], timeout=120, capture_output=True, text=True)
+        if r.returncode:
+            raise Infra("chibicc failed on %s: %s" % (f, r.stderr[-500:]))
+        r = vt.sh(["cc", "-o", f[:-2] + ".exe", f[:-2] + ".o"], timeout=60)
+        if r.returncode:
+            raise Infra("link failed on %s: %s" % (f, r.stderr[-500:]))
+        got = run_exe(f[:-2] + ".exe", cl)
+        want = {cs["idx"]: (cs["want"]["r"], cs["want"]["x"], 1) for cs in cl}
+        ggot = {}
+        if any(got.get(i) != want[i] for i in want):           # tie-break: what does the reference compiler say?
+            r = vt.sh(["cc", "-w", "-O0", "-o", f[:-2] + ".gcc", f], timeout=120)
+            if r.returncode == 0:
+                ggot = run_exe(f[:-2] + ".gcc", cl)
+        return (w, sg, tc), src, got, want, ggot
+    n = 0
+    for (w, sg, tc), src, got, want, ggot in vt.pmap(one, sorted(groups.items()), workers=4):
+        tn = "ptr" if tc == "ptr" else "bool" if tc == "bool" else "f%d" % w if tc == "flt" else "%s%d" % ("s" if sg else "u", w)
+        for cs in groups[(w, sg, tc)]:
+            n += 1
+            i = cs["idx"]
+            ctx.note_case("xchgops:%d" % i, nontrivial=True)
+            g, wt = got.get(i), want[i]
+            if g == wt:
+                continue
+            if ggot.get(i) != wt:
+                ctx.oracle_disagreements += 1
+                continue
+            if g is None or g[0] == "died":
+                what = "program-died"
+            else:
+                what = ("result-wrong" if g[0] != wt[0] else "object-wrong" if g[1] != wt[1] else "neighbour-clobbered")
+            ctx.report("xchgops:%s:%s:%s:%s" % (tn, cs["opn"], "old-top" if cs["oldc"] == 2 and tc == "int" else "old%d" % cs["oldc"], what),
+                       "atomic_exchange on a %s object (%s storage%s), old value %s, new-value operand %s (= %s before conversion): "
+                       "Level A (and gcc) give (result, object, guards intact) = %s, the tree's chibicc gives %s"
+                       % (tn, cs["obj"], ", pointee in %s storage" % cs["pool"] if tc == "ptr" else "", cs["old"], cs["opn"], cs["v"], wt, g),
+                       case=dict(kind="xchgops", case=cs, source=src, expected=wt, observed=g))
+    ctx.cov["traces_validated_against_impl"] += n
+    ctx.cov["xchgops_cases"] = n
+    ctx.sample(dict(kind="exchange over type class / operand type", case=cases[len(cases) // 2]))
+
+
+# ------------------------------------------------------------------ atomic typedefs (AtomicTypes.tla)
+HDR_KW = {"_Bool", "char", "short", "int", "long", "signed", "unsigned"}
+
+
+def typedefs(ctx, tree):
+    """<stdatomic.h> of the tree: (a) its typedef table is validated by TLC against C11 7.17.6 + psABI
+    (AtomicTypes.tla, one action per typedef); (b) sizeof/_Alignof/signedness of every atomic_X and of
+    _Atomic X, as the tree's compiler sees them, are compared with the table TLC emits."""
+    out = os.path.join(ctx.scratch, "atomictypes.ndjson")
+    hdr = os.path.join(ctx.scratch, "hdr.ndjson")
+    rows = []
+    for m in re.finditer(r"^\s*typedef\s+_Atomic\s+([A-Za-z_ ]+?)\s+(atomic_\w+)\s*;", open(tree + "/include/stdatomic.h").read(), re.M):
+        kws = m.group(1).split()
+        if all(k in HDR_KW for k in kws):
+            rows.append(dict(name=m.group(2), kw=kws))
+    vt.write_ndjson(hdr, rows)
+    cfg = ctx.cfg("atomic", "AtomicTypes.cfg", Emit=True)
+    g = ctx.tlc("atomic", "AtomicTypes", cfg, env=dict(OUT=out, HDR=hdr), workers=1)
+    ctl = ctx.tlc("atomic", "AtomicTypes", ctx.cfg("atomic", "AtomicTypes.cfg", Wrong='"atomic_int"'), env=dict(HDR=hdr), workers=1, count=False)
+    table = list({r["name"]: r for r in vt.read_ndjson(out) if "name" in r}.values())     # TLC evaluates Init more than once
+    if len(table) != 37:
+        raise Infra("AtomicTypes.tla emitted %d rows" % len(table))
+    if ctl.ok and any(r["name"] == "atomic_int" for r in rows):
+        raise Infra("sensitivity control failed: TLC accepts a wrong Level A entry for atomic_int")
+    if not g.ok:
+        p = ctx.replay_dir("tlc-AtomicTypes")
+        open(p + "/counterexample.txt", "w").write(g.trace_text())
+        json.dump(dict(kind="typedefs"), open(p + "/case.json", "w"))
+        bad = sorted(set(re.findall(r'"(atomic_\w+)"', g.trace_text().split("bad =")[-1]))) if "bad =" in g.trace_text() else []
+        ctx.report("atomic:typedef:header:%s" % (g.violated or "?"),
+                   "stdatomic.h declares %s with a type whose size/signedness is not that of the direct type of C11 7.17.6" % (", ".join(bad) or "an atomic typedef"), p)
+    # (b) what the compiler makes of them
+    src = ["#include <stdatomic.h>", "#include <stdint.h>", "#include <stddef.h>", "#include <uchar.h>", "#include <wchar.h>",
+           "int printf(const char *, ...);", "int main(void) {"]
+    for k, r in enumerate(table):
+        for tag, ty in (("T", r["name"]), ("D", "_Atomic %s" % r["direct"])):
+            src.append('  printf("%s %d %%d %%d %%d\\n", (int)sizeof(%s), (int)_Alignof(%s), (%s)-1 < (%s)0);' % (tag, k, ty, ty, ty, ty))
+    src.append('  printf("F %d\\n", (int)sizeof(atomic_flag)); return 0; }')
+    d = ctx.tmp("typedefs")
+    open(d + "/t.c", "w").write("\n".join(src) + "\n")
+    r_ = vt.run_limited([tree + "/chibicc", "-I" + tree + "/include", "-o", d + "/t", d + "/t.c"], timeout=120, mem_gb=4, capture_output=True, text=True)
+    if r_.returncode == -999:
+        raise Infra("typedef probe: compiler timeout")
+    if r_.returncode != 0:
+        ctx.report("atomic:typedef:rejected", "a program naming every atomic typedef of 7.17.6 is rejected: %s" % r_.stderr[-300:],
+                   case=dict(kind="typedefs"))
+        return
+    r_ = vt.run_limited([d + "/t"], timeout=60, capture_output=True, text=True)
+    if r_.returncode != 0:
+        raise Infra("typedef probe failed to run: rc=%s %s" % (r_.returncode, r_.stderr[-200:]))
+    o = r_.stdout
+    got = {(l.split()[0], int(l.split()[1])): tuple(int(x) for x in l.split()[2:]) for l in o.splitlines() if l[:1] in "TD"}
+    for k, r in enumerate(table):
+        want = (r["sz"], r["sz"], 1 if r["sg"] else 0)
+        ctx.note_case("typedef:" + r["name"])
+        ctx.cov["traces_validated_against_impl"] += 1
+        if got.get(("D", k)) != want:
+            # the direct type itself is not what the ABI says: that is C08's business (or glibc's); do not judge the typedef by it
+            ctx.oracle_disagreements += 1
+            continue
+        if got.get(("T", k)) != want:
+            ctx.report("atomic:typedef:%s" % r["name"], "%s has size/align/signedness %s, its direct type _Atomic %s has %s (C11 7.17.6)"
+                       % (r["name"], got.get(("T", k)), r["direct"], want), case=dict(kind="typedefs"))
+
+
 def run(ctx):
     q = ctx.quick
     tree = ctx.build()
@@ -508,7 +735,10 @@ def run(ctx):
     if "lost-update" not in {v["verdict"] for v in by.get(1, [])}:
         raise Infra("sensitivity control failed: TLC finds no lost update in a plain (non-atomic) `+=`")
     # 1. Level A on the generated domain (AtomicObj.tla: Lin is exactly its set of terminal states)
-    sc = dom if not q else sorted(set(vt.subsample(dom, ctx.seed, 13)) | set(always(dom)))
+    # quick: every 13th case of the integer type classes, every 41st of the _Bool / floating ones, and the `always` family
+    sc = dom if not q else sorted(set(vt.subsample([c for c in dom if c[1] not in (BOOL, FLT)], ctx.seed, 13))
+                                  | set(vt.subsample([c for c in dom if c[1] in (BOOL, FLT)], ctx.seed, 41)) | set(always(dom)),
+                                  key=lambda c: (c[0], sgcode(c[1])) + tuple(c[2:]))
     cases, meta = make_cases(ctx, units, sc)
     ctx.phase("parsed %d cases" % len(cases))
     pf = os.path.join(ctx.scratch, "prog-levelA.json")
@@ -548,6 +778,12 @@ def run(ctx):
     # 4b. one compare-exchange with non-trivial operand expressions (CasOperands.tla), replayed on the compiler
     casops(ctx, tree, q)
     ctx.phase("casops")
+    # 4b'. one exchange over object type class x operand type/range x old value class (XchgOperands.tla)
+    xchgops(ctx, tree, q)
+    ctx.phase("xchgops")
+    # 4c. the types of <stdatomic.h>
+    typedefs(ctx, tree)
+    ctx.phase("typedefs")
     # 5. supplement: pthread stress runs, judged on final values only
     stress(ctx, tree, q)
     ctx.phase("stress")
@@ -564,6 +800,12 @@ def replay(ctx, path):
     if c.get("kind") == "casops":
         casops(ctx, tree, False)
         return ctx.finish(rule="replay of the CasOperands family")
+    if c.get("kind") == "xchgops":
+        xchgops(ctx, tree, False)
+        return ctx.finish(rule="replay of the XchgOperands family")
+    if c.get("kind") == "typedefs":
+        typedefs(ctx, tree)
+        return ctx.finish(rule="replay of the <stdatomic.h> typedef table")
     if c.get("kind") == "stress":
         stress(ctx, tree, c.get("iters", 100000) <= 100000)
         return ctx.finish(rule="replay of the stress supplement")
